@@ -557,8 +557,11 @@ class Exec(Engine):
         """Instances of trusted axiom schemas (each one a true statement about the spec functions)."""
         for u in uses:
             tree = self.reg.parse_spec(u)
+            if isinstance(tree, ast.Call) and isinstance(tree.func, ast.Name) and tree.func.id in self.reg.lemmas:
+                self.use_lemma(self.reg.lemmas[tree.func.id], tree, st)
+                continue
             if not (isinstance(tree, ast.Call) and isinstance(tree.func, ast.Name) and tree.func.id in self.reg.schemas):
-                raise ContractDrift(f"'use' must name an axiom schema: {u}")
+                raise ContractDrift(f"'use' must name an axiom schema or a lemma: {u}")
             saved = self.spec
             self.spec = True
             try:
@@ -567,6 +570,26 @@ class Exec(Engine):
                 self.spec = saved
             st.assume(self.truth(v))
             self.assumed.append(u)
+
+    def use_lemma(self, lem, tree, st):
+        """Assume an instance (requires => ensures) of a lemma that is proved separately as its own obligations."""
+        saved = self.spec
+        self.spec = True
+        try:
+            args = [self.ev1(a, st) for a in tree.args]
+        finally:
+            self.spec = saved
+        if len(args) != len(lem.params):
+            raise ContractDrift(f"lemma {lem.key}: arity")
+        ls = State()
+        ls.pc = st.pc
+        for (n, t), a in zip(lem.params.items(), args):
+            ls.vars[n] = self.typed(a, t)
+        ls.old = dict(ls.vars)
+        hyp = zand(*[t for _, t in self.spec_conj(lem.requires, ls)])
+        concl = zand(*[t for _, t in self.spec_conj(lem.ensures, ls)])
+        st.assume(z3.Implies(hyp, concl))
+        self.used_lemmas = getattr(self, "used_lemmas", []) + [lem.key]
 
     # ------------------------------------------------------------------ function level
     def verify(self):
@@ -585,6 +608,7 @@ class Exec(Engine):
         for i, s in enumerate(finals):
             if s.flow in ("normal", "return"):
                 n_norm += 1
+                self.apply_use(c.use_at_end, s)
                 self.result = s.ret if s.flow == "return" else VNONE
                 if c.returns is not None:
                     try:
@@ -593,7 +617,7 @@ class Exec(Engine):
                         raise ContractDrift(f"{self.name}: returns {self.result.t}, contract says {c.returns}: {e}")
                 # normal return only when no 'raises' condition holds
                 for exc, cond in c.raises:
-                    (e_, t), = self.spec_conj([cond], self._with_old(s), None)
+                    t = zand(*[t_ for _, t_ in self.spec_conj([cond], self._with_old(s), None)])
                     self.oblige(s, znot(t), "raises", f"post.no-normal-return-when[{exc}:{cond[:40]}]/path{i}", self.fn.lineno)
                 for e, t in self.spec_conj(c.ensures, s):
                     self.oblige(s, t, "post", f"post[{e[:60]}]/path{i}", self.fn.lineno)
